@@ -8,7 +8,9 @@ PROP = {
                    "consumes a decision of an arbitrary fault schedule and exceptions unwind through the source's catch blocks and guards: for every configuration, "
                    "valid state (live or moved-from cells), argument (incl. aliases of own elements) and schedule, AddBack (3 forms), SetCount, Reserve, Shrink and copy "
                    "assignment either complete with the state of the fault-free model or throw with cells, capacity and the block / object ledger exactly as before; a "
-                   "failing copy / (count,item) constructor leaves the ledger as it was. The model is tied to the code by a correspondence run that predicts the complete "
+                   "failing copy / (count,item) constructor leaves the ledger as it was. SegmentedArray (model of SegmentedArray.h over the same Array model for the "
+                   "segment-pointer array, both sizings): AddBack, SetCount, Reserve complete with the fault-free state or throw with items and segments unchanged and an "
+                   "exact ledger; Shrink never throws. The models are tied to the code by correspondence runs that predict the complete "
                    "state after every faulted operation. "
                    "Kernel-checked theorems for every element count, relocation category and fault schedule: ObjectManager::RelocateCreate and CopyExec - the "
                    "primitives with which buckets, nodes and arrays grow - leave memory exactly unchanged when any copy or the creator throws, with a "
@@ -40,6 +42,8 @@ PROP = {
         "Momo.ArrF.C04_array_usable_after",
         "Momo.ArrF.C04_array_constructor_clean",
         "Momo.ArrF.C04_array_no_fault_completes",
+        "Momo.ArrF.Seg.C04_segarray_strong_every_fault",
+        "Momo.ArrF.Seg.C04_segarray_shrink_never_throws",
         "Momo.BTreeF.C04_tree_relocator_restores",
         "Momo.BTreeF.C04_tree_insert_strong",
         "Momo.BTreeF.C04_tree_add_strong",
@@ -54,6 +58,8 @@ PROP = {
         {"name": "c04_arrfault_3", "src": "c04_arrfault.cpp", "sanitize": "asan", "flags": ["-DAF_PART=3"], "timeout_quick": 600},
         {"name": "c04_arrfault_4", "src": "c04_arrfault.cpp", "sanitize": "asan", "flags": ["-DAF_PART=4"], "timeout_quick": 600},
         {"name": "c04_arrfault_5", "src": "c04_arrfault.cpp", "sanitize": "asan", "flags": ["-DAF_PART=5"], "timeout_quick": 600},
+        {"name": "c04_segfault_1", "src": "c04_segfault.cpp", "sanitize": "asan", "flags": ["-DSF_PART=1"], "timeout_quick": 600},
+        {"name": "c04_segfault_2", "src": "c04_segfault.cpp", "sanitize": "asan", "flags": ["-DSF_PART=2"], "timeout_quick": 600},
     ] + [
         {"name": "c04_treefault_%d" % k, "src": "c04_treefault.cpp", "sanitize": "asan", "flags": ["-DTF_PART=%d" % k], "timeout_quick": 600}
         for k in range(1, 6)
@@ -87,7 +93,7 @@ PROP = {
                      "Remove(key) of a multi-key container under faults (Replace inside pvRemoveRange), ResetKey, initializer-list / range constructors, the Key&& overloads "
                      "(documented exception 4), stdish wrappers; node releases of a successful removal / fast merge are booked as the difference of the node counts; a throwing "
                      "element constructor / assignment / comparison is assumed to leave its operands unchanged; a manager without Reallocate is assumed for the Relocator's arrays",
-                     "arrays (Momo.ArrF): SegmentedArray has no fault model (sweeps of c04_strong only); Insert for input iterators, SetCount(count) with the "
+                     "arrays (Momo.ArrF): SegmentedArray's copy constructor and copy assignment are in the fault model and in the correspondence run but have no theorem; Insert for input iterators, SetCount(count) with the "
                      "default creator and the initializer-list / iterator-range constructors are not in the fault model (same code shape as the modelled ones); "
                      "size_t overflow checks (pvCheckCapacity) and item filters that throw are not modelled; a throwing element constructor / assignment is "
                      "assumed to leave its operands unchanged (assumption about the item type); a move constructor declared noexcept is assumed not to throw"],
